@@ -365,7 +365,10 @@ def acc_hist(maxops, timeout=900):
 
 
 def c13(tier):
-    return simple_sel('C13', ['LawLocs'])(tier) + [acc_hist(2 if tier == 'quick' else 4, 3600)]
+    # results of functions are not locations of the document: no Set; one-step paths x function sequences
+    fn = sel('one-step-funcs', 'C13', SEL(1, 'triples', 'small', funcs=True, fset='small'), ['Emit']) if tier == 'quick' else \
+        sel('funcs', 'C13', SEL(2, 'triples', 'small', funcs=True, fset='small'), ['Emit'], timeout=3600)
+    return simple_sel('C13', ['LawLocs'])(tier) + [fn, acc_hist(2 if tier == 'quick' else 4, 3600)]
 
 
 def c05(tier):
@@ -559,7 +562,9 @@ CHECKS = {
     'C01': dict(stages=c01, level='model_checking'),
     'C02': dict(stages=c02, level='model_checking'),
     'C03': dict(stages=simple_sel('C03', ['LawFailsIffEmpty'], extra=[lambda: SLICES('C03'), lambda: filt('filter-atoms', 'C03', 2, 1, 'both', 'all'), lambda: filt('filter-deep-eq', 'C03', 2, 1, 'both', 'deep'), lambda: traceB_eval(4000, 60000, 'C03', EVAL_ATTR)]), level='model_checking'),
-    'C04': dict(stages=simple_sel('C04', extra=[lambda: filterproto(1), lambda: filt('filters', 'C04', 2, 2, 'arr', 'two'), lambda: traceB_eval(3000, 60000, 'C04', EVAL_ATTR)], quick_scope='triples'), level='model_checking'),
+    'C04': dict(stages=simple_sel('C04', extra=[lambda: filterproto(1), lambda: filt('filters', 'C04', 2, 2, 'arr', 'two'), lambda: traceB_eval(3000, 60000, 'C04', EVAL_ATTR),
+                                                 lambda: dict(kind='gen', module='Gen_Opaque', label='documents-with-typed-containers', props='C04,C12', timeout=1800, check_count=False,
+                                                              constants=dict(MaxLen=2, Templates='few', TypeSet='containers'), invariants=['Emit'])], quick_scope='triples'), level='model_checking'),
     'C07': dict(stages=c07, level='model_checking'),
     'C08': dict(stages=c08, level='model_checking'),
     'C11': dict(stages=c11, level='model_checking'),
